@@ -399,15 +399,18 @@ def enumerate_instances(which, cname, cls, table, rng, thorough=False):
             add(x, "%s:sweep" % n, valid=c.num not in (10, 11))
     if not sl:
         add(b, "plain")
-    if thorough:
-        for _ in range(24):
+    if thorough and regs:
+        import itertools
+        doms = [range(8) if k == "q" else range(16) for _, k in sl if k in "qr"]
+        if len(regs) <= 2:
+            combos = list(itertools.product(*doms))       # every register pair
+        else:
+            combos = [tuple(rng.randrange(len(d)) for d in doms) for _ in range(160)]
+        for combo in combos:
             x = dict(b)
-            for n, k in sl:
-                if k == "q":
-                    x[n] = areg(rng.randrange(8))
-                elif k == "r":
-                    x[n] = areg(rng.randrange(16))
-            add(x, "random")
+            for n, r in zip(regs, combo):
+                x[n] = areg(r)
+            add(x, "regs")
     return out
 
 
@@ -794,7 +797,7 @@ def c07_part(ctx, thorough):
         "Writes \\ {pc} within declared writes + clobbers (link register of bl / blx as a clause of its own), Reads \\ "
         "encoding-implied sp / pc within declared reads; distinct = distinct (class, printed text, displacement)")
     if mine is None:
-        table = laws_and_table(ctx, ["t16", "aw"] if thorough else ["aw"], thorough)
+        table = laws_and_table(ctx, ["t16", "aw"], thorough)
     else:
         table = gen_table(ctx)
     rng = _rng(ctx, 7)
